@@ -111,7 +111,7 @@ KINDS = (F_NONE,) + SOCKET_FAULTS + REPLY_FAULTS   # index 0 = no fault
 
 
 def run_history(stack, calls, plan, cut, nservers=1, default_noreply=True, recv_size=4096, client_kw=None,
-                after_call=None, expect_base_exc=None, eintr_at=None):
+                after_call=None, expect_base_exc=None, eintr_at=None, check_leftover=True):
     """calls: list of (op name, nr) with nr in (None, True, False).  Returns ("viol", msg) or ("ok", label, net, client).
 
     Oracle after every call (C01): no recv returned bytes owned by another call, no recv with nothing in flight,
@@ -139,7 +139,7 @@ def run_history(stack, calls, plan, cut, nservers=1, default_noreply=True, recv_
                 raise
         if net.violations:
             return ("viol", "call %d (%s): %s" % (k, name, net.violations[0]))
-        for s in net.sockets:
+        for s in net.sockets if check_leftover else ():
             if s.open and s.conn is not None and s.conn.queue:
                 return ("viol", "after call %d (%s, outcome %s) a reply is left unread on a connection that stays "
                                 "in use (socket %d)" % (k, name, outcomes[-1][0], s.sid))
